@@ -78,6 +78,7 @@ class Gen:
         self.counter = 0
         self.macros: list[tuple[str, list[str], bool]] = []   # (name, params, takes_code)
         self.used_names: set[str] = set()
+        self.files: dict = {}                                 # feature "files": path -> bytes (list) / text (str)
 
     # ------------------------------------------------------------------ names / literals
     def fresh(self, prefix="") -> str:
@@ -232,6 +233,8 @@ class Gen:
                 choices.append(("for", 1.5))
             if "macros" in f and self.macros:
                 choices.append(("apply", 3))
+        if "files" in f:
+            choices += [("incbin", 1.2), ("include", 0.8)]
         if "reloc" in f and r.random() < 0.04:
             choices.append(("org", 3))
             choices.append(("reloc", 2))
@@ -292,6 +295,29 @@ class Gen:
                     args.append(self.expr(env, allow_forward=r.random() < 0.4, directive=True)
                                 if r.random() < 0.6 else self.lit(r.choice([0, 1, 0x20, 0x1234])))
             return [("apply", name, args)]
+        if kind == "incbin":
+            path = f"bin{len(self.files)}_{r.choice(NAMES)}.bin"
+            n = r.choice([0, 1, 2, 5, 12, 40, 300])
+            self.files[path] = [r.randrange(256) for _ in range(n)]
+            base = path.replace("/", "_").replace(".", "_")
+            out = [("incbin", path)]
+            if r.random() < 0.6:       # the start label and the size symbol the directive defines, used right behind it
+                out.append(("data", r.choice(["dl", "pointer"]), [base, f"{base}__size"]))
+            return out
+        if kind == "include":
+            path = f"inc{len(self.files)}_{r.choice(NAMES)}.s"
+            inner = []
+            for _ in range(r.randrange(1, 5)):
+                k2 = r.random()
+                if k2 < 0.5:
+                    inner.append(self.instruction(env))
+                elif k2 < 0.8:
+                    inner.append(self.data(env))
+                else:
+                    lab = self.fresh("il_")
+                    inner += [("label", lab), ("data", "dw", [lab])]
+            self.files[path] = render(inner) + "\n"
+            return [("include", path)]
         if kind == "org":
             if env["local_labels"] and env["labels_back"] and r.random() < 0.3:
                 cands = [l for l in env["labels_back"] if l in env["local_labels"]]
